@@ -63,7 +63,7 @@ impl PkeSealingVersion for V3 {
         let ak = ak.finalize();
 
         let mut edk = key.0;
-        ctr::Ctr64BE::<aes::Aes256>::new(&ek, &n).apply_keystream(&mut edk);
+        ctr::Ctr128BE::<aes::Aes256>::new(&ek, &n).apply_keystream(&mut edk);
 
         let mut tag = hmac::Hmac::<sha2::Sha384>::new_from_slice(&ak).unwrap();
         tag.update(b"k3.seal.");
@@ -134,7 +134,7 @@ impl PkeUnsealingVersion for V3 {
         #[cfg(paseto_rs_verif)]
         let n = crate::verif_hooks::iv(n);
 
-        ctr::Ctr64BE::<aes::Aes256>::new(&ek, &n).apply_keystream(edk);
+        ctr::Ctr128BE::<aes::Aes256>::new(&ek, &n).apply_keystream(edk);
 
         Ok(LocalKey(*edk))
     }
